@@ -19,8 +19,8 @@ ENCODED = ["twisted.internet.base:ReactorBase.callLater",
            "twisted.internet.base:DelayedCall.delay", "twisted.internet.base:DelayedCall.activate_delay",
            "twisted.internet.base:DelayedCall.getTime", "twisted.internet.base:DelayedCall.active",
            "twisted.internet.base:DelayedCall.__le__", "twisted.internet.base:DelayedCall.__lt__"]
-BOUNDS = {"quick": {"n": 3, "ni": 2, "tot": 3, "tot_in": 2, "m": 1, "nd": 1, "ks": 7},
-          "thorough": {"n": 4, "ni": 3, "tot": 4, "tot_in": 3, "m": 2, "nd": 1, "ks": 7}}
+BOUNDS = {"quick": {"n": 3, "ni": 3, "tot": 3, "tot_in": 2, "m": 1, "nd": 1, "ks": 7},
+          "thorough": {"n": 4, "ni": 4, "tot": 4, "tot_in": 3, "m": 2, "nd": 1, "ks": 7}}
 B = {}
 PADS = 51           # concrete cancelled far-future heap entries used to reach the compaction branch
 FAR = 1.0e9         # their time; all symbolic times and the clock stay below it in step_compact
